@@ -700,6 +700,17 @@ M("C02", "M02-5-merged-cursor-taken-after-advancing-deletes", dict(
   title="merge(): the delete cursor handed to the merged segment is cloned after every source was advanced to the target opstamp - no advance_deletes follows the clone - so deletes older than the target are not replayed (unmapped, i.e. onto every document) on the merged segment (confirmed natively by the update-survives-merge probe)",
   functions=["segment_updater::merge"], bounds="unroll 2")
 
+for _p, _oid in (("C05", "M05-6-committed-merges-target-the-commit-opstamp"), ("C01", "M01-8-committed-merges-target-the-commit-opstamp")):
+    M(_p, _oid, dict(
+        root=SU + r"consider_merge_options$", depth=1, unroll=2, inline=[], auto_inline=False,
+        native=[("probe", "uncommitted_delete_not_published_by_background_merge")], absent_ok_events=["commit_opstamp"],
+        events={"commit_opstamp": {"call": r"SegmentUpdater::load_meta$"},
+                "start": {"call": r"SegmentUpdater::start_merge$"},
+                "ret": {"ret": True}},
+        checks=[("precedes", "commit_opstamp", "start"), ("reach", "start")]),
+      title="policy-driven merges: before any merge is started the last commit's opstamp is read (merges of committed segments are targeted at it, so they apply no delete that is still uncommitted and end_merge publishes nothing a commit did not contain); confirmed natively by the background-merge probe",
+      functions=["SegmentUpdater::consider_merge_options"], bounds="")
+
 # =============================================================================================
 # C03: mixed-type numeric range bounds (mirbv: loop-free integer MIR -> QF_BV)
 # =============================================================================================
